@@ -5,7 +5,10 @@
 //
 //   progress <casefile>
 // case line:  case <id> dim <2|3> alg <dc|simplex|hybrid> workers <w> minfeat <f> maxerr <e>
-//                  seed <s> yield <p> region <x0 y0 z0 x1 y1 z1> shape <prefix expression ...>
+//                  seed <s> yield <p> [mode <free|controlled>] region <x0 y0 z0 x1 y1 z1> shape <prefix expression ...>
+//             mode controlled: the cooperative scheduler of poolhook.hpp (one worker runs at a time, the log is
+//             the real total order of the segments, loop heads are logged) -- the pool trace, with the tick
+//             payloads interleaved, is replayed through Pool.step / Pool.tickOf by the driver
 // life line:  life <id> <op> <op> ...      ops: start nextN tickN finish destroy sleep
 #include <csignal>
 #include <fstream>
@@ -111,11 +114,13 @@ static void runCase(const std::vector<std::string>& w) {
     ph::State& s = ph::st();
     ph::reset(strtoull(kv["seed"].c_str(), nullptr, 10));
     s.yield_p = atof(kv["yield"].c_str());
-    s.controlled = false;
+    s.controlled = kv.count("mode") && kv["mode"] == "controlled";
+    s.log_loops = s.controlled;
     s.on_point = &onPoint;
     g_final.clear();
 
-    printf("case %s dim %d alg %s workers %u\n", w[1].c_str(), g_dim, g_alg.c_str(), settings.workers);
+    printf("case %s dim %d alg %s workers %u mode %s\n", w[1].c_str(), g_dim, g_alg.c_str(), settings.workers,
+           s.controlled ? "controlled" : "free");
     fflush(stdout);
     vh::forceRoundNearest();
     {
@@ -180,6 +185,7 @@ static void runCase(const std::vector<std::string>& w) {
         printf("ret %ld %ld\n", tris, verts);
     }
     s.logging = true;
+    s.controlled = false; s.log_loops = false;
     printf("end\n");
     fflush(stdout);
 }
